@@ -551,7 +551,7 @@ fn parse_init(l: &str) -> Option<InitOp> {
 }
 
 /// C12 oracle for one `init` op: `before`/`after` are full snapshots, `ans` the harness answer.
-fn oracle_init(rec: &mut Recorder, case_rent: (u64, u64), funder: Option<Pubkey>, l: &str, ans: &str, before: &[AcctSpec], after: &[AcctSpec]) {
+fn oracle_init(rec: &mut Recorder, case_rent: (u64, u64), funder: Option<Pubkey>, no_funder: bool, l: &str, ans: &str, before: &[AcctSpec], after: &[AcctSpec]) {
     let Some(op) = parse_init(l) else { return };
     let (res, log) = ans.split_once(" cpis=").unwrap_or((ans, "-"));
     let t0 = find(before, &op.tgt);
@@ -578,14 +578,25 @@ fn oracle_init(rec: &mut Recorder, case_rent: (u64, u64), funder: Option<Pubkey>
     }
     let properly = t0.owner == PROGRAM_ID && t0.data.len() >= W && t0.data[..W] == disc;
     if op.if_needed && properly {
-        if res != "ok needed=0" || before != after || log != "-" {
+        // errors that have nothing to do with the target's state (decided independently here)
+        let seeds_mismatch = op.tseeds.as_ref().is_some_and(|raw| {
+            let seeds: Vec<&[u8]> = raw.0.iter().map(|s| s.as_slice()).collect();
+            Pubkey::find_program_address(&seeds, &PROGRAM_ID).0 != op.tgt
+        });
+        let excused = (res == "err:Custom1002" && seeds_mismatch)
+            || (res == "err:Custom1004" && no_funder)
+            || (res == "err:Custom1001" && op.tseeds.is_none() && !t0.is_signer && !seeds_mismatch && !no_funder);
+        if !(res == "ok needed=0" || excused) || before != after || log != "-" {
             rec.fail("create_if_needed_touches_initialized", &format!("{l} -> {ans}"));
         }
     }
     if res == "ok needed=1" {
         let space = W + op.enc.len();
         let want_data: Vec<u8> = if op.ty == "borsh" { [&disc[..], &vec![0u8; op.enc.len()][..]].concat() } else { [&disc[..], &op.enc[..]].concat() };
-        if t1.owner != PROGRAM_ID || t1.data != want_data || t1.data.len() != space || t1.lamports < rent_min(case_rent, space) {
+        // the balance claim needs a funder other than the target itself (a self-"funded" account
+        // gains nothing; outside the property's quantifier, still run and diffed against the model)
+        let self_funded = funder == Some(op.tgt);
+        if t1.owner != PROGRAM_ID || t1.data != want_data || t1.data.len() != space || (!self_funded && t1.lamports < rent_min(case_rent, space)) {
             rec.fail("create_postcondition", &format!("{l} -> {ans}: owner {} data {} lamports {} (rent {})", khex(&t1.owner), hex(&t1.data), t1.lamports, rent_min(case_rent, space)));
         }
         if let Some(f) = funder {
@@ -718,7 +729,8 @@ pub fn run_case(rec: &mut Recorder, header: &str, lines: &[String]) {
                 rec.bump(&format!("{}:{}", if is_init { "init" } else { "clean" }, head));
                 if is_init {
                     // cached funder: the payer is the cached one (same declared account)
-                    oracle_init(rec, case.rent, other, l, &ans, &before, &after);
+                    let no_funder = l.contains(" cached ") && !case.cache_funder;
+                    oracle_init(rec, case.rent, other, no_funder, l, &ans, &before, &after);
                 } else {
                     oracle_clean(rec, case.rent, other, l, &ans, &before, &after);
                 }
@@ -845,10 +857,17 @@ fn c12_case(id: usize, rng: &mut Rng, rent: (u64, u64), ty: &str, if_needed: boo
     let tsigner = !seeded_target && twist != 2;
     let flam = if twist == 3 { rmin.saturating_sub(tlam).saturating_sub(1) } else { 1_000_000_000_000 };
     let fsigner = !seeded_funder && twist != 4;
-    lines.push(acct_line(&fkey, flam, &SYS, &[], fsigner, true));
+    // 8 funder owned by a third program, 9 funder carries data, 10 the target funds itself
+    let fowner = if twist == 8 { THIRD_ID } else { SYS };
+    let fdata: Vec<u8> = if twist == 9 { vec![1, 2, 3, 4] } else { vec![] };
+    lines.push(acct_line(&fkey, flam, &fowner, &fdata, fsigner, true));
     lines.push(acct_line(&tkey, tlam, &towner, &tdata, tsigner, twritable));
     lines.push(acct_line(&key(id as u64 * 4 + 2), 777, &THIRD_ID, &[7, 7, 7], false, true));
-    lines.push(format!("funder {} {}", khex(&fkey), fseed_str));
+    if twist == 10 && !seeded_target {
+        lines.push(format!("funder {} none", khex(&tkey)));
+    } else {
+        lines.push(format!("funder {} {}", khex(&fkey), fseed_str));
+    }
     if cached && twist != 7 {
         lines.push("cache funder".into());
     }
@@ -866,7 +885,7 @@ fn c12_case(id: usize, rng: &mut Rng, rent: (u64, u64), ty: &str, if_needed: boo
     (header, lines)
 }
 
-const C12_RULE: &str = "grid: target state (0 lamports; pre-funded below/at/above rent; owned by the program with zero / set / wrong discriminant; owned by a third program with data shorter / longer than the discriminant, zero or non-zero; System-owned with data; program-owned with 0 lamports) x funder (plain signer, seeded signer; argument or context cache) x account type (zero-copy pod, zero-copy list, borsh) x Create / CreateIfNeeded x initial values (default + random) x 3 rent parameter sets x seeded / keypair target, each followed by cleanup and a second Create and CreateIfNeeded on the result; plus twists (read-only target, unsigned target, poor funder, unsigned funder, seeds without the bump slot, missing funder cache) and PRNG-drawn mixes. A case is non-trivial when an init op issued a CPI, returned an error / panicked, or changed the world; distinct by case text hash.";
+const C12_RULE: &str = "grid: target state (0 lamports; pre-funded below/at/above rent; owned by the program with zero / set / wrong discriminant; owned by a third program with data shorter / longer than the discriminant, zero or non-zero; System-owned with data; program-owned with 0 lamports) x funder (plain signer, seeded signer; argument or context cache) x account type (zero-copy pod, zero-copy list, borsh) x Create / CreateIfNeeded x initial values (default + random) x 3 rent parameter sets x seeded / keypair target, each followed by cleanup and a second Create and CreateIfNeeded on the result; plus twists (read-only target, unsigned target, poor funder, unsigned funder, seeds without the bump slot, seeds of another address, missing funder cache, funder owned by a third program, funder with data, target funding itself) and PRNG-drawn mixes. A case is non-trivial when an init op issued a CPI, returned an error / panicked, or changed the world; distinct by case text hash.";
 
 pub fn run_c12(args: &Args) {
     let mut rec = Recorder::new(C12_RULE);
@@ -906,7 +925,7 @@ pub fn run_c12(args: &Args) {
         let ty = *rng.pick(&["zc16", "zclist", "borsh"]);
         let vals = values(ty, &mut rng.fork(), 4);
         let val = rng.pick(&vals).clone();
-        let twist = if i % 3 == 0 { 0 } else { 1 + (rng.below(7) as usize) };
+        let twist = if i % 3 == 0 { 0 } else { 1 + (rng.below(10) as usize) };
         let (h, l) = c12_case(id, &mut rng.fork(), rent, ty, rng.chance(1, 2), rng.below(14) as usize, rng.chance(1, 2), rng.chance(1, 2), rng.chance(1, 2), &val, twist);
         run_case(&mut rec, &h, &l);
         rec.sample_current(5);
